@@ -269,6 +269,49 @@ def run(F, rep, tier):
                       "`x[..] %s= v` compiles %s, whose kernels are not sink[p] := sink[p] %s src: %s" % (op, nfc, op, "; ".join("%s: %s" % b for b in bad[:3])),
                       "src/interpreter/src/statements.rs", sample={"operator": op + "=", "compiler": nfc, "kernels": sorted(structs)[:6]})
 
+    # ---- R5 operator families agree: <Op>Assign<Suffix> kernels of the four operators are the same kernel up to the operator
+    rep.rule("C04-R5", "op-assignment kernel families: for each kernel suffix the Add/Sub/Mul/Div kernels have the same normal form up to the operator (targets, source positions, loops, conditions)")
+    fam = defaultdict(dict)
+    OPSYM = {"Add": "+", "Sub": "-", "Mul": "*", "Div": "/"}
+    for nm in sorted(by_name):
+        m = re.match(r"^(Add|Sub|Mul|Div)Assign(\w+)$", nm)
+        if not m:
+            continue
+        k = kernel_of(nm)
+        if isinstance(k, Unrecognised):
+            continue
+        form = []
+        for e in k.effects:
+            v = e.value
+            if e.kind == "write" and root_of(e.target) == "sink" and isinstance(v, tuple) and v and v[0] == "op" and v[1] == OPSYM[m.group(1)]:
+                vs = "OP(%s, %s)" % (show(v[2]), show(v[3]))
+            else:
+                vs = show(v) if isinstance(v, tuple) else str(v)
+            form.append((e.kind, show(e.target), vs, tuple(show(l) for l in e.loops), tuple(show(c) for c in e.conds)))
+        fam[m.group(2)][m.group(1)] = tuple(form)
+    n5 = 0
+    for suffix, ops_ in sorted(fam.items()):
+        if len(ops_) < 3:
+            continue
+        n5 += 1
+        counts = defaultdict(list)
+        for o, f_ in ops_.items():
+            counts[f_].append(o)
+        if len(counts) == 1:
+            rep.ok("C04-R5", "family:%s" % suffix, sample={"suffix": suffix, "operators": sorted(ops_)})
+            continue
+        major = max(counts.values(), key=len)
+        for f_, os_ in counts.items():
+            if os_ is major:
+                continue
+            ref = [k_ for k_, v_ in counts.items() if v_ is major][0]
+            diff = [(a_, b_) for a_, b_ in zip(f_, ref) if a_ != b_][:1]
+            for o in os_:
+                rep.bad("C04-R5", "family:%s:%s-deviates" % (suffix, o),
+                        "%sAssign%s differs from its %s sibling(s) beyond the operator: %s  vs  %s - `x[..] %s= v` addresses or guards its elements differently from the other op-assignments" % (
+                            o, suffix, "/".join(sorted(major)), diff[0][0][1:3] if diff else "", diff[0][1][1:3] if diff else "", OPSYM[o]), "%sAssign%s" % (o, suffix))
+    rep.floor("C04-R5", "op-assignment kernel families compared", n5, 8)
+
     # ---- R4 kind ladders
     disp = {}
     for c in (crate, "mech_math.lib"):
